@@ -44,6 +44,9 @@ pub proof fn lemma_boundary_unique(s: Seq<char>, i: int, j: int)
     if i < j { lemma_byte_len_mono(s, i, j); } else if j < i { lemma_byte_len_mono(s, j, i); }
 }
 
+pub trait StrPat: Sized { spec fn pat(&self) -> Seq<char>; }
+impl<'a> StrPat for &'a Str { open spec fn pat(&self) -> Seq<char> { (**self)@ } }
+impl StrPat for char { open spec fn pat(&self) -> Seq<char> { seq![*self] } }
 #[verifier::external_body]
 pub struct Str { s: String }     // R1: String, &str, &String share one view
 impl Str {
@@ -58,10 +61,15 @@ impl Str {
     pub fn size(&self) -> (n: usize) ensures n == self@.len() { unimplemented!() }
     #[verifier::external_body]
     pub fn is_empty(&self) -> (b: bool) ensures b == (self@.len() == 0) { unimplemented!() }
+    // std's Pattern argument: a &String / &str or a char
     #[verifier::external_body]
-    pub fn starts_with(&self, p: &Str) -> (b: bool) ensures b == is_prefix(p@, self@) { unimplemented!() }
+    pub fn starts_with<P: StrPat>(&self, p: P) -> (b: bool) ensures b == is_prefix(p.pat(), self@) { unimplemented!() }
     #[verifier::external_body]
-    pub fn ends_with(&self, t: &Str) -> (b: bool) ensures b == is_suffix(t@, self@) { unimplemented!() }
+    pub fn ends_with<P: StrPat>(&self, t: P) -> (b: bool) ensures b == is_suffix(t.pat(), self@) { unimplemented!() }
+    #[verifier::external_body]
+    pub fn push(&mut self, c: char) ensures final(self)@ == old(self)@.push(c) { unimplemented!() }
+    #[verifier::external_body]
+    pub fn push_str(&mut self, t: &Str) ensures final(self)@ == old(self)@ + t@ { unimplemented!() }
     #[verifier::external_body]
     pub fn contains(&self, t: &Str) -> (b: bool) ensures b == (exists|i: int| 0 <= i && i + t@.len() <= self@.len() && #[trigger] self@.subrange(i, i + t@.len()) == t@) { unimplemented!() }
     // R7: `&s[..n]` -- preconditions are Rust's panic conditions
@@ -91,6 +99,13 @@ impl Str {
     // ASSUMED[str-lowercase]: to_lowercase maps every character to its lowercase form(s); only the empty string lowercases to empty
     #[verifier::external_body]
     pub fn to_lowercase(&self) -> (r: Str) ensures r@ == lower(self@), (lower(self@).len() == 0) == (self@.len() == 0) { unimplemented!() }
+    // further std str methods: uninterpreted functions of the text (only that they are functions of it is assumed)
+    #[verifier::external_body] pub fn trim(&self) -> (r: Str) ensures r@ == str_trim(self@) { unimplemented!() }
+    #[verifier::external_body] pub fn trim_start(&self) -> (r: Str) ensures r@ == str_trim_start(self@) { unimplemented!() }
+    #[verifier::external_body] pub fn trim_end(&self) -> (r: Str) ensures r@ == str_trim_end(self@) { unimplemented!() }
+    #[verifier::external_body] pub fn to_uppercase(&self) -> (r: Str) ensures r@ == upper(self@) { unimplemented!() }
+    #[verifier::external_body] pub fn to_ascii_lowercase(&self) -> (r: Str) ensures r@ == ascii_lower(self@) { unimplemented!() }
+    #[verifier::external_body] pub fn eq_ignore_ascii_case(&self, o: &Str) -> (b: bool) ensures b == (ascii_lower(self@) == ascii_lower(o@)) { unimplemented!() }
     // R1: comparison with a string literal, `x == "lit"`
     #[verifier::external_body]
     pub fn eq_lit(&self, lit: &'static str) -> (b: bool) ensures b == (self@ == lit@) { unimplemented!() }
@@ -100,3 +115,8 @@ impl Str {
     pub fn eq(&self, o: &Str) -> (b: bool) ensures b == (self@ == o@) { unimplemented!() }
 }
 pub uninterp spec fn lower(s: Seq<char>) -> Seq<char>;
+pub uninterp spec fn upper(s: Seq<char>) -> Seq<char>;
+pub uninterp spec fn ascii_lower(s: Seq<char>) -> Seq<char>;
+pub uninterp spec fn str_trim(s: Seq<char>) -> Seq<char>;
+pub uninterp spec fn str_trim_start(s: Seq<char>) -> Seq<char>;
+pub uninterp spec fn str_trim_end(s: Seq<char>) -> Seq<char>;
